@@ -2,8 +2,8 @@
    these definitions of /repo; tools/srcfacts.py regenerates their normal-form digests on every run (coq/Gen/Src_*.v).
    Statements only. *)
 From Coq Require Import List String.
-From ME Require Import Model.SrcExpected Gen.Src_common Gen.Src_map Gen.Src_flat_map Gen.Src_retry Gen.Src_poll Gen.Src_throttle Gen.Src_timeout Gen.Src_fbool Gen.Src_fzip
-  Proofs.Src_ok_common Proofs.Src_ok_map Proofs.Src_ok_flat_map Proofs.Src_ok_retry Proofs.Src_ok_poll Proofs.Src_ok_throttle Proofs.Src_ok_timeout Proofs.Src_ok_fbool Proofs.Src_ok_fzip.
+From ME Require Import Model.SrcExpected Gen.Src_common Gen.Src_map Gen.Src_flat_map Gen.Src_retry Gen.Src_poll Gen.Src_throttle Gen.Src_timeout Gen.Src_fbool Gen.Src_fzip Gen.Src_fsequence Gen.Src_fapply Gen.Src_fmap Gen.Src_fbase
+  Proofs.Src_ok_common Proofs.Src_ok_map Proofs.Src_ok_flat_map Proofs.Src_ok_retry Proofs.Src_ok_poll Proofs.Src_ok_throttle Proofs.Src_ok_timeout Proofs.Src_ok_fbool Proofs.Src_ok_fzip Proofs.Src_ok_fsequence Proofs.Src_ok_fapply Proofs.Src_ok_fmap Proofs.Src_ok_fbase.
 
 (* more_executors/_impl/common.py *)
 Theorem c03_source_common : Src_common.facts = expected_common.
@@ -32,6 +32,18 @@ Proof. exact src_fbool_ok. Qed.
 (* more_executors/_impl/futures/zip.py *)
 Theorem c03_source_fzip : Src_fzip.facts = expected_fzip.
 Proof. exact src_fzip_ok. Qed.
+(* more_executors/_impl/futures/sequence.py *)
+Theorem c03_source_fsequence : Src_fsequence.facts = expected_fsequence.
+Proof. exact src_fsequence_ok. Qed.
+(* more_executors/_impl/futures/apply.py *)
+Theorem c03_source_fapply : Src_fapply.facts = expected_fapply.
+Proof. exact src_fapply_ok. Qed.
+(* more_executors/_impl/futures/map.py *)
+Theorem c03_source_fmap : Src_fmap.facts = expected_fmap.
+Proof. exact src_fmap_ok. Qed.
+(* more_executors/_impl/futures/base.py *)
+Theorem c03_source_fbase : Src_fbase.facts = expected_fbase.
+Proof. exact src_fbase_ok. Qed.
 
 Print Assumptions c03_source_common.
 Print Assumptions c03_source_map.
@@ -42,3 +54,7 @@ Print Assumptions c03_source_throttle.
 Print Assumptions c03_source_timeout.
 Print Assumptions c03_source_fbool.
 Print Assumptions c03_source_fzip.
+Print Assumptions c03_source_fsequence.
+Print Assumptions c03_source_fapply.
+Print Assumptions c03_source_fmap.
+Print Assumptions c03_source_fbase.
